@@ -32,4 +32,11 @@ TEXT["C09"] = {
     "note": COMMON_NOTE + "hits/dets/ptb64 round trips are validated by correspondence, not yet by theorem (partial). stim convert CLI not yet driven.",
     "technique": "Lean 4 theorems (induction over codec state) + model-equality correspondence under sanitizers",
 }
+TEXT["C20"] = {
+    "level": "Kernel-checked: word-level meaning of each of the six mask-and-shift passes of the 64x64 transpose for symbolic words and their composition into (r,c)->(c,r) on all 4096 positions; laws of the "
+             "bit-by-bit definitions (transpose entry, xor, popcount bound, shifts, truncating copy) for all sizes. Correspondence: every bit-vector / bit-matrix primitive at W=64/128/256 equals the "
+             "bit-by-bit Lean definition on sizes straddling every word boundary, with dirty padding; deterministic library computations agree across the three widths.",
+    "note": COMMON_NOTE + "SIMD intrinsics are compared, not modelled; the blocked rectangular transpose is compared, not proved (partial).",
+    "technique": "Lean 4 theorems (BitVec bit extraction + decide +kernel) + model-equality correspondence across word widths",
+}
 NOT_CLAIMED = {}
